@@ -184,12 +184,15 @@ CLAIMED.update({
                 "(matrix off; coalesce on or no quantifier over an identifier; the trees handed to shake nested-free and outside "
                 "D13/D14) the eight switch sets without matrix return and keep the verdict on every document; the known classes are "
                 "refuted on the model (refuted_D13/D14/D16; D17, D22 in C12). The runner evaluates the scope for every generated rule "
-                "and the check accepts NO verdict change inside it. Outside the scope (nested blocks under shake: D16/D29; the matrix "
-                "pass: statements in Pending/C01_matrix.v, proof in progress) the model is tied to the crate by the correspondence: "
+                "and the check accepts NO verdict change inside it. C01_matrix: matrix_exact_flat / matrix_truth_flat (the matrix pass on "
+                "nested-free trees is exact without multi-cell rows and truth-preserving with them in positive positions, outside "
+                "D18/D19) and scope_all_sound: inside Scope.c01_scope_all ALL SIXTEEN switch sets keep the verdict of every loadable "
+                "rule on every document (55-60 % of the generated rules for the default switches). Outside the scope (nested blocks "
+                "under shake/matrix: D16, D17, D29; D13-D15, D18-D21) the model is tied to the crate by the correspondence: "
                 "random rules, forced rules and coverage families x documents x all 16 switch sets, the OPTIMISED TREES compared "
                 "structurally, and every crate-side verdict change must be reproduced by the model AND accepted by the executable "
                 "classifier of a listed finding (D13..D21, D29; Model/Known.v), else it is a VIOLATION.",
-        "note": TB + "PARTIAL proof: preservation by shake_1 on trees with nested blocks and by the matrix pass is not proved (D16, D17, D18, D29 show it is false in general; the true statements are being proved). The first versions of several statements were refuted by the proof attempts (counterexamples kept as lemmas).",
+        "note": TB + "PARTIAL proof: preservation by shake_1 / matrix on trees with nested blocks is not proved (D16, D17, D18, D29 show it is false in general). The first versions of several statements were refuted by the proof attempts (counterexamples kept as lemmas).",
         "technique": "Coq proof for coalesce / rewrite / shake_0 / shake_1 (nested-free) and whole loaded rules inside an executable scope + refutation witnesses; executable optimiser model, structural comparison of optimised trees over 16 switch sets with classifier-gated known findings",
     },
     "C08": {
